@@ -292,7 +292,9 @@ def compactOutput (s : Lsm) (cd : CompactDef) (discardTs numKeep now : Nat) : Li
       | _, _ => false)))
   let topSrcs := if cd.thisLevel == 0 then tops.reverse.map (·.ents) else tops.map (·.ents)
   let merged := mergeAll (topSrcs ++ [(validBots.map (·.ents)).flatten])
-  let hasOverlap := checkOverlap s (tops ++ bots) (cd.nextLevel + 1)
+  -- L0→L0 counts as overlapping (fix of finding F1: the L0 tables left out of the compaction are
+  -- not inspected by `checkOverlap`)
+  let hasOverlap := (cd.thisLevel == 0 && cd.nextLevel == 0) || checkOverlap s (tops ++ bots) (cd.nextLevel + 1)
   (subcompact { discardTs, numKeep, hasOverlap, now, dropPrefixes := cd.dropPrefixes } merged, hasOverlap)
 
 /-- `runCompactDef`: `nextLevel.replaceTables(bot, new)` (sorted by `Smallest`, on every level,
